@@ -21,7 +21,7 @@ Binding       : CallGen — TLC enumerates signature classes x argument classes 
                 value / exception type, pointed-to bytes and ffi.errno; TLC (Trace_Call, Base
                 256) validates every record against Outcome and the paths against each other.
 """
-import json, os
+import json, os, re
 from concurrent.futures import ThreadPoolExecutor
 from harness import core
 from harness import call_gen as G
@@ -169,8 +169,14 @@ def run_cases(ctx, sigs, cls, vcls, ntuples, tag="m"):
         funcs["f%d" % i] = s
     if vs:
         funcs["vsum"] = ("vsum", ())
-    cdef, src = G.render_module(funcs)
+    cdef, src = G.render_module(funcs, pad=30 if ctx.quick else 50)
     plan = R.build_libs(ctx, tag, cdef, src)
+    with open(os.path.join(plan["dir"], plan["ool_module"] + ".py")) as f:
+        m = re.search(r"_types = b'((?:\\x[0-9a-fA-F]{2})*)'", f.read())
+    nslots = len(m.group(1)) // 16 if m else 0
+    ctx.cov["type_table_slots"] = max(ctx.cov.get("type_table_slots", 0), nslots)
+    if nslots <= (256 if ctx.quick else 1000):
+        raise core.MachineryError("generated module has only %d type-table slots" % nslots)
     b = G.Builder(ctx.rng, cls, vcls)
     cases, meta = [], {}
     cid = 0
